@@ -204,6 +204,7 @@ static void run_op(ChWorld &w, const Op &op)
 	    b.shape(std::max(br, 1) + 1, std::max(bc, 1) + 1, std::max(s.F, 1));
 	    a.shape(std::max(ar, 1) + 1, std::max(ac, 1) + 1, std::max(s.F, 1));
 	    fill(a, r); fill(b, r);
+	    if (ab && s.F > 0 && op.I(10) % 10 >= 8) { int fs = (int)((op.I(10) / 10) % s.F); for (auto &v : a.cells) v[(size_t)fs] = op.I(10) % 10 == 8 ? mkc(0, 0) : mkc(0.5, 0.25); c.count("probe.singular_a_matrix"); }
 	    // the pointer tables are laid out for the claimed column count
 	    std::vector<cplx *> bp((size_t)std::max(br, 1) * (size_t)std::max(bc, 1)), ap((size_t)std::max(ar, 1) * (size_t)std::max(ac, 1));
 	    for (int i = 0; i < std::max(br, 1); ++i) for (int j = 0; j < std::max(bc, 1); ++j) bp[(size_t)i * (size_t)std::max(bc, 1) + j] = &b.at(i, j, 0);
@@ -295,7 +296,8 @@ static void run_op(ChWorld &w, const Op &op)
     if (k == "getpv") {
 	bool ok; int h = pick_handle(w, op.I(0), ok);
 	cplx v;
-	CH_CALL("vnacal_get_parameter_value", __real__ v == HUGE_VAL, v = vnacal_get_parameter_value(w.vcp, h, dval(op.I(1), 1.5e6)));
+	// (a scalar parameter may legitimately hold +inf: failure is HUGE_VAL together with errno)
+	CH_CALL("vnacal_get_parameter_value", __real__ v == HUGE_VAL && err != 0, errno = 0; v = vnacal_get_parameter_value(w.vcp, h, dval(op.I(1), 1.5e6)));
 	MUST_FAIL(!ok, "vnacal_get_parameter_value", strf("handle %d, which is not live", h));
 	return;
     }
@@ -340,6 +342,8 @@ static void run_op(ChWorld &w, const Op &op)
 	MeasBuf a, b;
 	b.shape(std::max(br, 1) + 1, std::max(bc, 1) + 1, (int)an); a.shape(std::max(bc, 1) + 1, std::max(bc, 1) + 1, (int)an);
 	fill(a, r); fill(b, r);
+	// sometimes a reference matrix that is singular at one frequency (all zero, or rank one)
+	if (ab && an > 0 && op.I(7) % 10 >= 8) { int fs = (int)((op.I(7) / 10) % an); for (auto &v : a.cells) v[(size_t)fs] = op.I(7) % 10 == 8 ? mkc(0, 0) : mkc(0.5, 0.25); c.count("probe.singular_a_matrix"); }
 	int ar = (ctype == VNACAL_UE14 || ctype == VNACAL_E12) ? 1 : bc, ac = bc;
 	std::vector<cplx *> bp((size_t)std::max(br, 1) * (size_t)std::max(bc, 1)), ap((size_t)std::max(ar, 1) * (size_t)std::max(ac, 1));
 	for (int i = 0; i < std::max(br, 1); ++i) for (int j = 0; j < std::max(bc, 1); ++j) bp[(size_t)i * (size_t)std::max(bc, 1) + j] = &b.at(i, j, 0);
@@ -397,7 +401,7 @@ static void run_op(ChWorld &w, const Op &op)
 	w.vcp = nullptr;
 	free_sessions_of_dead_vcp(w);
 	check_ledger_empty(c, "vnacal_free (with live sessions, parameters and calibrations)");
-	{ LibCall lc(c); for (int q = 0; q < ND; ++q) w.vd[q] = vnadata_alloc(w.cb ? sim_error_fn : nullptr, nullptr); lc.done(); }
+	{ LibCall lc(c); for (int q = 0; q < ND; ++q) w.vd[q] = vnadata_alloc(w.cb ? sim_error_fn : nullptr, (void *)(uintptr_t)(0x10 + q)); lc.done(); }
 	if (c.violated) return;
 	if (k == "load") {
 	    std::string name = op.S(0).empty() ? "ch.vnacal" : op.S(0);
@@ -408,7 +412,7 @@ static void run_op(ChWorld &w, const Op &op)
 	    if (v) { w.vcp = v; c.count("probe.loaded"); return; }
 	    { LibCall lc(c); for (int q = 0; q < ND; ++q) vnadata_free(w.vd[q]); lc.done(); }
 	    check_ledger_empty(c, "failed vnacal_load");
-	    { LibCall lc(c); for (int q = 0; q < ND; ++q) w.vd[q] = vnadata_alloc(w.cb ? sim_error_fn : nullptr, nullptr); lc.done(); }
+	    { LibCall lc(c); for (int q = 0; q < ND; ++q) w.vd[q] = vnadata_alloc(w.cb ? sim_error_fn : nullptr, (void *)(uintptr_t)(0x10 + q)); lc.done(); }
 	    if (c.violated) return;
 	}
 	{ LibCall lc(c); w.vcp = vnacal_create(w.cb ? sim_error_fn : nullptr, nullptr); lc.done(); }
@@ -444,7 +448,7 @@ static void chaos_run(Ctx &c, const Plan &plan)
     ChWorld w(c);
     w.cb = plan.cfg.geti("callback", 1) != 0;
     c.cb_installed = w.cb;
-    { LibCall lc(c); w.vcp = vnacal_create(w.cb ? sim_error_fn : nullptr, nullptr); for (int q = 0; q < ND; ++q) w.vd[q] = vnadata_alloc(w.cb ? sim_error_fn : nullptr, nullptr); lc.done(); }
+    { LibCall lc(c); w.vcp = vnacal_create(w.cb ? sim_error_fn : nullptr, nullptr); for (int q = 0; q < ND; ++q) w.vd[q] = vnadata_alloc(w.cb ? sim_error_fn : nullptr, (void *)(uintptr_t)(0x10 + q)); lc.done(); }
     for (size_t k = 0; k < plan.ops.size() && !c.violated; ++k) { c.cur_op = (long)k; c.interleave = hash_mix(c.interleave, fnv1a(plan.ops[k].k)); run_op(w, plan.ops[k]); c.states.insert(hash_mix(fnv1a(plan.ops[k].k), (uint64_t)plan.ops[k].I(0))); }
     c.cur_op = (long)plan.ops.size();
     if (c.violated) return;
@@ -503,7 +507,7 @@ Plan chaos_gen(const std::string &check, const std::string &tier, uint64_t seed,
 	else if (u < 0.17) plan.ops.push_back(mk("setfv", {slot, rng.chance(p_bad) ? rng.range(3, 5) : rng.below(3)}));
 	else if (u < 0.22) plan.ops.push_back(mk("merror", {slot, code(), rng.below(7), code(), code(), rng.below(6)}));
 	else if (u < 0.27) plan.ops.push_back(mk("knob", {slot, rng.below(5), code(), code()}));
-	else if (u < 0.45) plan.ops.push_back(mk("add", {slot, rng.below(5), rng.below(2), code(), code(), code(), code(), code(), code(), code()}));
+	else if (u < 0.45) plan.ops.push_back(mk("add", {slot, rng.below(5), rng.below(2), code(), code(), code(), code(), code(), code(), code(), rng.chance(0.08) ? rng.below(100) * 10 + rng.range(8, 9) : 0}));
 	else if (u < 0.52) plan.ops.push_back(mk("solve", {slot}));
 	else if (u < 0.57) plan.ops.push_back(mk("addcal", {slot, rng.below(10)}));
 	else if (u < 0.65) plan.ops.push_back(mk("mkparam", {rng.below(4), code(), code(), rng.below(7), code(), rng.below(2)}));
@@ -511,7 +515,7 @@ Plan chaos_gen(const std::string &check, const std::string &tier, uint64_t seed,
 	else if (u < 0.73) plan.ops.push_back(mk("getpv", {code(), code()}));
 	else if (u < 0.78) plan.ops.push_back(mk("ciq", {code(), rng.below(10)}));
 	else if (u < 0.81) plan.ops.push_back(mk("delcal", {code()}));
-	else if (u < 0.87) plan.ops.push_back(mk("apply", {code(), code(), code(), code(), rng.below(2), rng.chance(p_bad) ? rng.range(3, 5) : rng.below(3), rng.below(2)}));
+	else if (u < 0.87) plan.ops.push_back(mk("apply", {code(), code(), code(), code(), rng.below(2), rng.chance(p_bad) ? rng.range(3, 5) : rng.below(3), rng.below(2), rng.chance(0.15) ? rng.below(100) * 10 + rng.range(8, 9) : 0}));
 	else if (u < 0.92) plan.ops.push_back(mk("prop", {rng.below(3) + 3 * code(), rng.below(NDESC), rng.below(8)}));
 	else if (u < 0.93) plan.ops.push_back(mk("prec", {code(), code()}));
 	else if (u < 0.95) plan.ops.push_back(mk("save", {}));
